@@ -26,7 +26,7 @@ ASSUMPTIONS = [
     "astropy ModelBoundingBox evaluation is what BBox.v says (outside = x < lo or x > hi per axis; fill on every output) — measured by this run",
     "the unmasked transform f is taken from the implementation (with_bounding_box=False) — C03 is about masking, not about f",
 ]
-PINS = ["gwcs/wcs.py::WCS.__call__", "gwcs/wcs.py::WCS.bounding_box", "gwcs/wcs.py::WCS.bounding_box@setter",
+PINS = ["gwcs/wcs.py::WCS.__call__", "gwcs/wcs.py::WCS.transform", "gwcs/wcs.py::WCS.bounding_box", "gwcs/wcs.py::WCS.bounding_box@setter",
         "gwcs/api.py::GWCSAPIMixin.pixel_bounds"]
 HEADER = ("From Coq Require Import ZArith List Bool PrimFloat. Import ListNotations.\n"
           "From GW Require Import Base.Fl C03.BBox.\n")
@@ -103,6 +103,16 @@ def run(ctx):
             except Exception as e:  # noqa
                 problems.append((f"evaluation raised {type(e).__name__}: {e}", {"point": pt, "box": box}))
                 continue
+            # WCS.transform between the first and the last frame of a single-step pipeline is the same evaluation with the same keywords
+            if len(w.available_frames) == 2 and rng.random() < 0.3:
+                try:
+                    with np.errstate(all="ignore"):
+                        via = np.atleast_1d(np.asarray(w.transform(w.available_frames[0], w.available_frames[1], *pt, **kw), dtype=float))
+                    if not np.array_equal(via, got, equal_nan=True):
+                        problems.append((f"transform({w.available_frames[0]!r}, {w.available_frames[1]!r}, {pt}, **{kw}) = {via.tolist()} but "
+                                         f"calling the WCS with the same keywords gives {got.tolist()} (box {box})", {"point": pt, "box": box, "kwargs": str(kw)}))
+                except Exception as e:  # noqa
+                    problems.append((f"transform() raised {type(e).__name__}: {e}", {"point": pt, "box": box}))
             cbox = "(Some " + glist([f"({gfloat(lo)}, {gfloat(hi)})" for lo, hi in box]) + ")"
             cwb = "None" if wb is None else f"(Some {gbool(wb)})"
             cfill = "None" if fill is None else f"(Some {gfloat(fill)})"
